@@ -888,6 +888,14 @@ fn run_dg(first: Option<Err>, q: Err) -> String {
                 } else {
                     format!("R?{}", r.replace(' ', "_"))
                 }
+            } else if let Some(r) = inner.strip_prefix("Local { error: Application { code: ") {
+                // `Local { error: Application { code: NAME, reason: "m1" } }`
+                let code = r.split(',').next().and_then(code_value);
+                let tag = tag_of(r.split("reason: \"").nth(1).and_then(|x| x.split('"').next()).unwrap_or("?"));
+                match code {
+                    Some(c) => format!("L{}.{}", c, tag),
+                    None => "L?".to_string(),
+                }
             } else {
                 format!("?{}", d.replace(' ', "_"))
             }
